@@ -522,8 +522,14 @@ def _run_check_inner(prop, tier, seed, mod, plan, n, jobs, budget_s, known, agg,
         msg = post(ev, agg, tier)
         if msg:
             harness_fail = harness_fail or msg
-    os.makedirs(os.path.join(VERIF, 'evidence'), exist_ok=True)
-    with open(os.path.join(VERIF, 'evidence', prop + '.json'), 'w') as f:
+    # the committed evidence describes the registered command on /repo itself: runs against a scratch copy (mutants,
+    # refactors) or with overridden sizes write theirs next to the replays instead
+    ev_dir = os.path.join(VERIF, 'evidence')
+    if os.path.realpath(REPO) != '/repo' or n != plan['n'] or os.environ.get('VERIF_RUN_TIMEOUT_S') or \
+            os.environ.get('VERIF_POOL') == '0':
+        ev_dir = os.path.join(VERIF, 'replays', 'evidence-scratch')
+    os.makedirs(ev_dir, exist_ok=True)
+    with open(os.path.join(ev_dir, prop + '.json'), 'w') as f:
         json.dump(ev, f, indent=1, sort_keys=True, default=str)
     print('evaluations=%d distinct_nontrivial=%d wall=%.1fs runs/h=%d faults=%s' % (
         agg['evaluations'], len(agg['nontrivial_digests']), wall,
